@@ -479,7 +479,7 @@ func (w *vkSrvWorld) warmUDP(n *vkUDPNet) string {
 func vkUDPExplore(c *vkit.Ctx, unit string, minClients int) {
 	nClients := 2
 	caps := []int{1, 2}
-	kinds := []string{"hit", "miss", "malf", "qr", "notify", "panic"}
+	kinds := []string{"hit", "miss", "malf", "qr", "notify", "panic", "eager"}
 	core := []string{"hit", "miss", "qr", "malf"}
 	if c.Thorough() {
 		nClients = 3
